@@ -298,6 +298,38 @@ def has_error_count_gate(fn: ast.FunctionDef, par_attrs, entry_call: ast.Call, p
     return None
 
 
+def rule_no_swallowing(rep: Report, repo: Repo, rule: str) -> None:
+    """No handler in the hand-written package swallows a pipeline error (shared by C06-R4 and C19-R9)."""
+    rep.rule(rule, "no except handler for a superclass of a pipeline error type ends without raise")
+    n_rel = 0
+    for mod in HAND_WRITTEN:
+        mm = repo.module(mod)
+        for q, fn in list(repo.functions(mod)) + [("<module>", mm.tree)]:
+            nodes = walk_no_nested(fn) if q != "<module>" else \
+                [n for n in ast.walk(mm.tree) if _at_module_level(n, mm)]
+            for n in nodes:
+                if isinstance(n, ast.Try):
+                    for h in n.handlers:
+                        names = [None] if h.type is None else \
+                            [norm(x).split(".")[-1] for x in (h.type.elts if isinstance(h.type, ast.Tuple) else [h.type])]
+                        rel = [x for x in names if x in RELEVANT_HANDLERS]
+                        cons = f"except {norm(h.type) if h.type else ''}: " + "; ".join(norm(s)[:40] for s in h.body[-1:])
+                        if not rel:
+                            rep.note(rule, f"{mod}:{q}", cons, "handler for an unrelated leaf exception; ignored")
+                            continue
+                        n_rel += 1
+                        rep.check(all_paths_raise(h.body), rule, f"{mod}:{q}", cons,
+                                  "handler catches a pipeline error type and can finish without raising: a syntax or decode "
+                                  "error would be swallowed and processing would go on",
+                                  witness="any file with a syntax error")
+                elif isinstance(n, ast.With):
+                    for it in n.items:
+                        if "suppress" in norm(it.context_expr):
+                            rep.bad(rule, f"{mod}:{q}", norm(it.context_expr),
+                                    "contextlib.suppress swallows exceptions on the processing path")
+    rep.floor(rule, 1, "relevant except handlers")
+
+
 def run(rep: Report, repo: Repo, tier: str) -> None:
     rep.unit("src/cminx/documenter.py", "src/cminx/parser/__init__.py", "src/cminx/parser/CMakeParser.py",
              "src/cminx/__init__.py", "src/cminx/aggregator.py", "src/cminx/documentation_types.py",
@@ -433,34 +465,7 @@ def run(rep: Report, repo: Repo, tier: str) -> None:
 
     # ---- R4: no swallowing handler in the hand-written package
     with rep.isolated():
-        rep.rule("C06-R4", "no except handler for a superclass of a pipeline error type ends without raise")
-    n_rel = 0
-    for mod in HAND_WRITTEN:
-        mm = repo.module(mod)
-        for q, fn in list(repo.functions(mod)) + [("<module>", mm.tree)]:
-            nodes = walk_no_nested(fn) if q != "<module>" else \
-                [n for n in ast.walk(mm.tree) if _at_module_level(n, mm)]
-            for n in nodes:
-                if isinstance(n, ast.Try):
-                    for h in n.handlers:
-                        names = [None] if h.type is None else \
-                            [norm(x).split(".")[-1] for x in (h.type.elts if isinstance(h.type, ast.Tuple) else [h.type])]
-                        rel = [x for x in names if x in RELEVANT_HANDLERS]
-                        cons = f"except {norm(h.type) if h.type else ''}: " + "; ".join(norm(s)[:40] for s in h.body[-1:])
-                        if not rel:
-                            rep.note("C06-R4", f"{mod}:{q}", cons, "handler for an unrelated leaf exception; ignored")
-                            continue
-                        n_rel += 1
-                        rep.check(all_paths_raise(h.body), "C06-R4", f"{mod}:{q}", cons,
-                                  "handler catches a pipeline error type and can finish without raising: a syntax or decode "
-                                  "error would be swallowed and processing would go on",
-                                  witness="any file with a syntax error")
-                elif isinstance(n, ast.With):
-                    for it in n.items:
-                        if "suppress" in norm(it.context_expr):
-                            rep.bad("C06-R4", f"{mod}:{q}", norm(it.context_expr),
-                                    "contextlib.suppress swallows exceptions on the processing path")
-    rep.floor("C06-R4", 1, "relevant except handlers")
+        rule_no_swallowing(rep, repo, "C06-R4")
 
     # ---- R5: write after success
     with rep.isolated():
